@@ -115,19 +115,19 @@ def copy (s : St F Mat Vec) : St F Mat Vec :=
 /-! ### `sv.cov = c` (StateVector.cov setter → `Cov.orb` setter)
 
 `self._data["cov"] = value; value.orb = self`: the covariance gets a NEW private copy — the state it is
-attached to, cartesian, **in the frame that state is expressed in now** (`g`, coordinates `x`) — while
-`_orb_frame`, set once in `__new__`, keeps naming the frame of the state the covariance was built for.
-Tag and values are untouched. -/
+attached to, cartesian, **in the frame that state is expressed in now** (`g`, coordinates `x`) — and, since /repo
+eca9727, `_orb_frame` is set to that frame by the same setter (`self._orb_frame = orb.frame`): every conversion is
+routed through the frame the reference state is expressed in.  Tag and values are untouched. -/
 
-/-- `sv.cov = c` as the code is: the private copy is re-seated, `_orb_frame` is not -/
+/-- `sv.cov = c` as the code is (since eca9727): private copy and `_orb_frame` are re-seated together -/
 def attach (s : St F Mat Vec) (g : F) (x : Vec) : St F Mat Vec :=
-  { s with orbCur := g, orb := x }
-
-/-- `sv.cov = c` with proposed_fixes/C14-attach-keeps-orb-frame.diff applied (`Cov.orb` setter also sets
-`_orb_frame = orb.frame`): NOT the code; the model of the patched code, about which
-`BeyondVerif.C14.attachFix_path_independent` is proved -/
-def attachFix (s : St F Mat Vec) (g : F) (x : Vec) : St F Mat Vec :=
   { s with orbFrame := g, orbCur := g, orb := x }
+
+/-- History: `sv.cov = c` before eca9727 — the private copy was re-seated, `_orb_frame` kept naming the frame given at
+construction.  Kept only so that Witness/C14.lean and `attachOld_characterised` document, kernel-checked, what the oracle
+family `attached-later:reframed-state:local-target` would report if the defect returned. -/
+def attachOld (s : St F Mat Vec) (g : F) (x : Vec) : St F Mat Vec :=
+  { s with orbCur := g, orb := x }
 
 /-! ### What the third argument of `Cov(orb, values, frame)` may be
 
